@@ -89,6 +89,7 @@ Definition hand (p : fpc) : list chunk :=
   | FSave (Some c) => [c]
   | FSaveW (Some l) c => [c; l]
   | FSaveW None c => [c]
+  | FSaveOutW c => [c]
   | _ => []
   end.
 
@@ -101,6 +102,10 @@ Definition hand_all (p : fpc) : list chunk :=
 
 Definition inflight (s : state) : list chunk := st_queue s ++ hand (st_fpc s) ++ st_win s ++ st_hold s.
 Definition tracked (s : state) : list chunk := st_queue s ++ hand_all (st_fpc s) ++ st_win s ++ st_hold s.
+
+(* the feeder is past saveQueued: the queue has been drained for good *)
+Definition after_queue (p : fpc) : bool :=
+  match p with FWait | FSaveOut | FSaveOutW _ | FStopped => true | _ => false end.
 
 Definition main_loop (p : fpc) : bool :=
   match p with FRecv | FLoad _ | FPush _ _ => true | _ => false end.
@@ -172,7 +177,7 @@ Record Inv (s : state) : Prop := {
   i_space : m_pbytes (st_met s) = owned_sum dirsize (st_dir s) (entered (st_gh s));
   i_bound : (m_pbytes (st_met s) <= Z.max (g_initbytes (st_gh s)) (st_max s) + g_maxfw (st_gh s))%Z
             /\ (0 <= g_maxfw (st_gh s))%Z;
-  i_savew : forall l c, st_fpc s = FSaveW l c ->
+  i_savew : forall c back, saving (st_fpc s) = Some (c, back) ->
               (m_pbytes (st_met s) <= st_max s)%Z /\ (dlen c <= g_maxfw (st_gh s))%Z /\
               c_saved c = false /\ exists d, c_data c = Some d;
   i_push : forall c c', st_fpc s = FPush c c' -> c_id c' = c_id c /\ zero_length c' = false;
@@ -188,7 +193,7 @@ Record Inv (s : state) : Prop := {
   i_winbound : (length (st_win s) <= st_M s)%nat;
   i_qbound : (length (st_queue s) <= st_Q s)%nat;
   i_closed : main_loop (st_fpc s) = false -> st_closed s = true;
-  i_empty : st_fpc s = FWait \/ st_fpc s = FStopped -> st_queue s = [] /\ st_win s = [];
+  i_empty : (after_queue (st_fpc s) = true -> st_queue s = []) /\ (st_fpc s = FStopped -> st_win s = []);
   i_recsorted : StronglySorted name_lt (g_rec (st_gh s));
   i_acc_ever : forall x d b, In (x, d, b) (g_acc (st_gh s)) -> In (x, d) (st_ever s);
   i_rec_ever : forall x d e, In (x, d) (st_ever s) -> In x (g_rec (st_gh s)) ->
